@@ -1440,4 +1440,583 @@ theorem refines_extend (i : Nat) (s : State) (bs : List Borrow) (hinv : Inv i s)
   obtain ⟨g1, g2⟩ := producer_refines i s w' v v' _ hv h2 h3
   exact ⟨_, _, by simp only [step, h1]; rfl, g1, g2, rfl⟩
 
+/-! ### `register_patch` -/
+
+theorem BrOk.congr {v v' : Iov} {e : Nat × BackrefInfo} (h : BrOk v e) (hs : v'.slices = v.slices)
+    (hcs : v'.consumedSize = v.consumedSize) (hcn : v'.consumedSlices = v.consumedSlices) : BrOk v' e :=
+  h.of_append [] (by simp [hs]) hcs hcn
+
+theorem mem_mkCells_hole (brs : List (Nat × BackrefInfo)) (off : Nat) (bs : List UInt8) (k : Nat)
+    (h : Cell.hole k ∈ mkCells brs off bs) : ∃ e ∈ brs, e.1 = k := by
+  induction bs generalizing off with
+  | nil => simp [mkCells] at h
+  | cons b t ih =>
+    simp only [mkCells, List.mem_cons] at h
+    rcases h with h | h
+    · cases hh : holeAt brs off with
+      | none => rw [hh] at h; cases h
+      | some k' =>
+        rw [hh] at h
+        simp only [Cell.hole.injEq] at h
+        subst h
+        obtain ⟨e, he, hk, _⟩ := holeAt_some_mem brs off k hh
+        exact ⟨e, he, hk⟩
+    · exact ih _ h
+
+/-- The `push_back_or_panic` check of `register_patch`: keys strictly increase. -/
+def lastKeyOk (v : Iov) : Bool :=
+  match v.backrefs.getLast? with
+  | some (k, _) => k < v.logicalSize
+  | none => true
+
+theorem registerPatch_eq (w w' : World) (i : Nat) (v : Iov) (pat : List UInt8) (last : Slice)
+    (hne : pat.isEmpty = false) (h1 : w.pushCopy i pat = some w') (h2 : w'.iov i = some v)
+    (h3 : v.slices.getLast? = some last) :
+    w.registerPatch i pat =
+      (if (!lastKeyOk v || decide (v.logicalSize = 0)) = true then none
+       else some (w'.setIov i (some { v with backrefs := v.backrefs ++
+              [(v.logicalSize, ⟨v.consumedSlices + v.slices.length - 1, last.len - pat.length, pat.length⟩)] }),
+            some (v.logicalSize, ⟨v.consumedSlices + v.slices.length - 1, last.len - pat.length, pat.length⟩))) := by
+  unfold World.registerPatch
+  simp only [hne, Bool.false_eq_true, if_false, h1, h2, h3]
+  rfl
+
+theorem World.registerPatch_spec (w : World) (i : Nat) (v : Iov) (pat : List UInt8) (hv : w.iov i = some v)
+    (hinv : IovInv w v) (hne : pat ≠ []) :
+    ∃ w' v' info, w.registerPatch i pat = some (w', some (v.logicalSize + pat.length, info)) ∧
+      w'.iov i = some v' ∧ IovInv w' v' ∧ info.len = pat.length ∧
+      absCells w' v' = absCells w v ++ List.replicate pat.length (Cell.hole (v.logicalSize + pat.length)) ∧
+      (∀ c ∈ absCells w v, c ≠ Cell.hole (v.logicalSize + pat.length)) ∧
+      v'.backrefs = v.backrefs ++ [(v.logicalSize + pat.length, info)] ∧
+      v'.logicalSize = v.logicalSize + pat.length ∧ v'.consumedSize = v.consumedSize := by
+  obtain ⟨w1, v1, h1, h2, h3, h4, h5, h6, h7, h8, h9, h10, h11, h12, h13, ⟨pre, last, c, hl1, hl2, hl3⟩, _, _⟩ :=
+    World.pushCopy_spec w i v pat hv hinv hne
+  have hplen : 0 < pat.length := List.length_pos_iff.mpr hne
+  have hpe : pat.isEmpty = false := by cases pat with | nil => exact absurd rfl hne | cons _ _ => rfl
+  have hlast : v1.slices.getLast? = some last := by rw [hl1]; simp
+  rw [registerPatch_eq w w1 i v1 pat last hpe h1 h2 hlast]
+  have hkeys : ∀ e ∈ v.backrefs, e.1 ≤ v.logicalSize := fun e he => (hinv.br_ok e he).key_le hinv.size_eq
+  have hkey0 : ¬ v1.logicalSize = 0 := by omega
+  have hok : lastKeyOk v1 = true := by
+    unfold lastKeyOk
+    cases hg : v1.backrefs.getLast? with
+    | none => rfl
+    | some e =>
+      obtain ⟨k, inf⟩ := e
+      simp only [decide_eq_true_eq]
+      have hm : (k, inf) ∈ v.backrefs := by
+        rw [← h6]; exact List.mem_of_getLast? hg
+      have := hkeys _ hm
+      simp only at this
+      omega
+  simp only [hok, Bool.not_true, Bool.false_or, hkey0, decide_false, Bool.false_eq_true, if_false]
+  rw [← h9]
+  have hlen1 : v1.slices.length = pre.length + 1 := by rw [hl1]; simp
+  let info : BackrefInfo := ⟨v1.consumedSlices + v1.slices.length - 1, last.len - pat.length, pat.length⟩
+  refine ⟨w1.setIov i (some { v1 with backrefs := v1.backrefs ++ [(v1.logicalSize, info)] }),
+    { v1 with backrefs := v1.backrefs ++ [(v1.logicalSize, info)] }, info, rfl, by simp, ?_, rfl, ?_, ?_,
+    by simp [h6], rfl, by simp [h7]⟩
+  · -- invariant
+    apply IovInv.setIov
+    refine
+      { slices_ok := h3.slices_ok, ordered := h3.ordered, size_eq := h3.size_eq, anchors_pos := h3.anchors_pos,
+        anchors_sum := h3.anchors_sum, cache_fresh := h3.cache_fresh, br_ok := ?_, br_sorted := ?_ }
+    · intro e he
+      simp only [List.mem_append, List.mem_singleton] at he
+      rcases he with he | rfl
+      · exact (h3.br_ok e he).congr rfl rfl rfl
+      · refine ⟨hplen, by simp only [info]; omega, ⟨last, c, ?_, hl2, by simp only [info]; omega⟩, ?_⟩
+        · have : info.sliceIndex - v1.consumedSlices = pre.length := by simp only [info]; omega
+          simp only [this, hl1]
+          simp
+        · have : info.sliceIndex - v1.consumedSlices = pre.length := by simp only [info]; omega
+          unfold sliceStart
+          simp only [this]
+          have hs := h3.size_eq
+          rw [hl1] at hs ⊢
+          simp only [List.take_left', sumLens_append, sumLens_cons, sumLens_nil, info] at hs ⊢
+          omega
+    · show List.Pairwise BrLt (v1.backrefs ++ [(v1.logicalSize, info)])
+      rw [List.pairwise_append]
+      refine ⟨h3.br_sorted, by simp, ?_⟩
+      intro a ha b hb
+      simp only [List.mem_singleton] at hb
+      subst hb
+      have hk := hkeys a (by rw [← h6]; exact ha)
+      have hi := (h3.br_ok a ha).idx_lt
+      exact ⟨by simp only [info]; omega, by simp only [info]; omega⟩
+  · -- abstraction
+    rw [absCells_setIov]
+    unfold absCells
+    simp only [h5, h6, h7]
+    rw [mkCells_append]
+    have hfl : (w.flat v.slices).length + v.consumedSize = v.logicalSize := by
+      rw [hinv.flat_length]; have := hinv.size_eq; omega
+    congr 1
+    · apply mkCells_congr
+      intro j hj
+      rw [holeAt_append]
+      have : holeAt [(v1.logicalSize, info)] (v.consumedSize + j) = none := by
+        simp only [holeAt, info]
+        rw [if_neg (by omega)]
+      rw [this]; simp
+    · apply mkCells_hole
+      intro j hj
+      rw [holeAt_append, holeAt_none_above hinv _ (by omega)]
+      simp only [Option.none_or, holeAt, info]
+      rw [if_pos (by omega)]
+  · intro cell hc heq
+    subst heq
+    obtain ⟨e, he, hk⟩ := mem_mkCells_hole _ _ _ _ hc
+    have := hkeys e he
+    omega
+
+/-! ### `backfill`: cell-level lemmas -/
+
+/-- `off` lies in the logical byte range of backref `e`. -/
+def InRange (e : Nat × BackrefInfo) (off : Nat) : Prop := e.1 ≤ off + e.2.len ∧ off < e.1
+
+theorem pairwise_trichotomy {α} {R : α → α → Prop} {l : List α} (h : l.Pairwise R) {a b : α}
+    (ha : a ∈ l) (hb : b ∈ l) : a = b ∨ R a b ∨ R b a := by
+  induction l with
+  | nil => cases ha
+  | cons x t ih =>
+    rw [List.pairwise_cons] at h
+    simp only [List.mem_cons] at ha hb
+    rcases ha with rfl | ha <;> rcases hb with rfl | hb
+    · left; rfl
+    · right; left; exact h.1 b hb
+    · right; right; exact h.1 a ha
+    · exact ih h.2 ha hb
+
+theorem BrLt.disjoint {a b : Nat × BackrefInfo} (h : BrLt a b) (off : Nat) : ¬ (InRange a off ∧ InRange b off) := by
+  unfold BrLt at h; unfold InRange
+  omega
+
+theorem holeAt_eq_some_of_mem {brs : List (Nat × BackrefInfo)} (hs : brs.Pairwise BrLt)
+    {e : Nat × BackrefInfo} (he : e ∈ brs) {off : Nat} (hr : InRange e off) : holeAt brs off = some e.1 := by
+  induction brs with
+  | nil => cases he
+  | cons h t ih =>
+    rw [List.pairwise_cons] at hs
+    simp only [List.mem_cons] at he
+    simp only [holeAt]
+    rcases he with rfl | he
+    · rw [if_pos (show e.1 ≤ off + e.2.len ∧ off < e.1 from hr)]
+    · have : ¬ (h.1 ≤ off + h.2.len ∧ off < h.1) := fun hh => (hs.1 e he).disjoint off ⟨hh, hr⟩
+      rw [if_neg this]
+      exact ih hs.2 he
+
+theorem holeAt_filter_of_not_inRange (brs : List (Nat × BackrefInfo)) (key off : Nat)
+    (h : ∀ e ∈ brs, e.1 = key → ¬ InRange e off) :
+    holeAt (brs.filter (fun e => decide (e.1 ≠ key))) off = holeAt brs off := by
+  induction brs with
+  | nil => rfl
+  | cons x t ih =>
+    have iht := ih (fun e he => h e (by simp [he]))
+    by_cases hk : x.1 = key
+    · have hnr := h x (by simp) hk
+      simp only [List.filter_cons, hk, ne_eq, not_true_eq_false, decide_false, Bool.false_eq_true, if_false]
+      rw [iht]
+      simp only [holeAt]
+      rw [if_neg (show ¬ (x.1 ≤ off + x.2.len ∧ off < x.1) from hnr)]
+    · simp only [List.filter_cons, ne_eq, hk, not_false_eq_true, decide_true, if_true, holeAt]
+      rw [iht]
+
+theorem fillCells_nil_src (id : Nat) (l : List Cell) : fillCells id l [] = l := by
+  induction l with
+  | nil => rfl
+  | cons c t ih => cases c <;> simp [fillCells, ih]
+
+theorem fillCells_append_of_no_hole (id : Nat) (X Y : List Cell) (src : List UInt8)
+    (h : ∀ c ∈ X, c ≠ Cell.hole id) : fillCells id (X ++ Y) src = X ++ fillCells id Y src := by
+  induction X with
+  | nil => rfl
+  | cons c t ih =>
+    have iht := ih (fun c hc => h c (by simp [hc]))
+    cases c with
+    | byte b => simp [fillCells, iht]
+    | hole j =>
+      have hj : j ≠ id := fun e => h (Cell.hole j) (by simp) (by rw [e])
+      cases src with
+      | nil => simp [fillCells_nil_src]
+      | cons s ss =>
+        simp only [List.cons_append, fillCells, hj, if_false, iht]
+
+theorem fillCells_replicate (id : Nat) (src : List UInt8) (Z : List Cell) :
+    fillCells id (List.replicate src.length (Cell.hole id) ++ Z) src = src.map Cell.byte ++ Z := by
+  induction src with
+  | nil => simp [fillCells_nil_src]
+  | cons s ss ih =>
+    simp only [List.length_cons, List.replicate_succ, List.cons_append, fillCells, if_true, List.map_cons, ih]
+
+theorem mkCells_fill (brs : List (Nat × BackrefInfo)) (cs : Nat) (A B C src : List UInt8) (e : Nat × BackrefInfo)
+    (he : e ∈ brs) (hs : brs.Pairwise BrLt) (hpos : ∀ x ∈ brs, 0 < x.2.len)
+    (hA : cs + A.length + e.2.len = e.1) (hB : B.length = e.2.len) (hsrc : src.length = e.2.len) :
+    mkCells (brs.filter (fun x => decide (x.1 ≠ e.1))) cs (A ++ src ++ C)
+      = fillCells e.1 (mkCells brs cs (A ++ B ++ C)) src := by
+  -- entries sharing the key are `e` itself
+  have huniq : ∀ x ∈ brs, x.1 = e.1 → x = e := by
+    intro x hx hk
+    rcases pairwise_trichotomy hs hx he with h | h | h
+    · exact h
+    · have := hpos e he; unfold BrLt at h; omega
+    · have := hpos x hx; unfold BrLt at h; omega
+  have hout : ∀ off, ¬ InRange e off →
+      holeAt (brs.filter (fun x => decide (x.1 ≠ e.1))) off = holeAt brs off ∧ holeAt brs off ≠ some e.1 := by
+    intro off hnr
+    refine ⟨holeAt_filter_of_not_inRange brs e.1 off (fun x hx hk => by rw [huniq x hx hk]; exact hnr), ?_⟩
+    intro hh
+    obtain ⟨x, hx, hk, hr⟩ := holeAt_some_mem brs off e.1 hh
+    rw [huniq x hx hk] at hr
+    exact hnr hr
+  have hin : ∀ off, InRange e off →
+      holeAt (brs.filter (fun x => decide (x.1 ≠ e.1))) off = none ∧ holeAt brs off = some e.1 := by
+    intro off hr
+    refine ⟨?_, holeAt_eq_some_of_mem hs he hr⟩
+    rw [holeAt_eq_none_iff]
+    intro x hx hxr
+    simp only [List.mem_filter, ne_eq, decide_eq_true_eq] at hx
+    rcases pairwise_trichotomy hs hx.1 he with h | h | h
+    · exact hx.2 (by rw [h])
+    · exact h.disjoint off ⟨hxr, hr⟩
+    · exact h.disjoint off ⟨hr, hxr⟩
+  have nohole : ∀ off (l : List UInt8), (∀ j, j < l.length → ¬ InRange e (off + j)) →
+      mkCells (brs.filter (fun x => decide (x.1 ≠ e.1))) off l = mkCells brs off l ∧
+      ∀ c ∈ mkCells brs off l, c ≠ Cell.hole e.1 := by
+    intro off l hl
+    refine ⟨mkCells_congr _ _ _ _ (fun j hj => (hout _ (hl j hj)).1), ?_⟩
+    intro c hc heq
+    subst heq
+    -- a hole with key `e.1` would come from an offset in range
+    clear hin
+    induction l generalizing off with
+    | nil => simp [mkCells] at hc
+    | cons b t ih =>
+      simp only [mkCells, List.mem_cons] at hc
+      rcases hc with hc | hc
+      · have h0 := (hout off (by simpa using hl 0 (by simp))).2
+        cases hh : holeAt brs off with
+        | none => rw [hh] at hc; cases hc
+        | some k =>
+          rw [hh] at hc h0
+          simp only [Cell.hole.injEq] at hc
+          exact h0 (by rw [hc])
+      · apply ih (off + 1) _ hc
+        intro j hj
+        have := hl (j + 1) (by simp; omega)
+        rwa [show off + 1 + j = off + (j + 1) by omega]
+  rw [mkCells_append, mkCells_append, mkCells_append, mkCells_append]
+  obtain ⟨eA, nA⟩ := nohole cs A (by intro j hj; unfold InRange; omega)
+  obtain ⟨eC, nC⟩ := nohole (cs + (A ++ B).length) C
+    (by intro j hj; unfold InRange; simp only [List.length_append]; omega)
+  have hlen : (A ++ src).length = (A ++ B).length := by simp [hB, hsrc]
+  rw [hlen, eA, eC]
+  have eB : mkCells brs (cs + A.length) B = List.replicate src.length (Cell.hole e.1) := by
+    rw [hsrc, ← hB]
+    apply mkCells_hole
+    intro j hj
+    exact (hin _ (by unfold InRange; omega)).2
+  have eS : mkCells (brs.filter (fun x => decide (x.1 ≠ e.1))) (cs + A.length) src = src.map Cell.byte := by
+    apply mkCells_none
+    intro j hj
+    exact (hin _ (by unfold InRange; omega)).1
+  rw [eB, eS, List.append_assoc, List.append_assoc, fillCells_append_of_no_hole _ _ _ _ nA, fillCells_replicate]
+
+/-! ### `backfill_or_panic` -/
+
+theorem br_key_unique {brs : List (Nat × BackrefInfo)} (hs : brs.Pairwise BrLt) (hpos : ∀ x ∈ brs, 0 < x.2.len)
+    {a b : Nat × BackrefInfo} (ha : a ∈ brs) (hb : b ∈ brs) (hk : a.1 = b.1) : a = b := by
+  rcases pairwise_trichotomy hs ha hb with h | h | h
+  · exact h
+  · have := hpos b hb; unfold BrLt at h; omega
+  · have := hpos a ha; unfold BrLt at h; omega
+
+theorem find?_key {brs : List (Nat × BackrefInfo)} (hs : brs.Pairwise BrLt) (hpos : ∀ x ∈ brs, 0 < x.2.len)
+    {e : Nat × BackrefInfo} (he : e ∈ brs) : brs.find? (fun x => decide (x.1 = e.1)) = some e := by
+  induction brs with
+  | nil => cases he
+  | cons x t ih =>
+    simp only [List.find?_cons]
+    by_cases hk : x.1 = e.1
+    · have := br_key_unique hs hpos (List.mem_cons_self) he hk
+      simp [hk, this]
+    · simp only [hk, decide_false]
+      rw [List.pairwise_cons] at hs
+      simp only [List.mem_cons] at he
+      rcases he with rfl | he
+      · exact absurd rfl hk
+      · exact ih hs.2 (fun y hy => hpos y (by simp [hy])) he
+
+/-- A token that `backfill_or_panic` accepts: the empty token with an empty source, or a pending
+backref of this iovec with a source of exactly its size. -/
+def ValidToken (v : Iov) (tok : Backref) (src : List UInt8) : Prop :=
+  match tok with
+  | none => src = []
+  | some e => e ∈ v.backrefs ∧ e.2.len = src.length
+
+/-- A stale, foreign or wrong-size token panics (no invariant needed). -/
+theorem World.backfill_invalid (w : World) (i : Nat) (v : Iov) (tok : Backref) (src : List UInt8)
+    (hv : w.iov i = some v) (h : ¬ ValidToken v tok src) : w.backfill i tok src = none := by
+  unfold World.backfill
+  rw [hv]
+  cases tok with
+  | none =>
+    simp only [ValidToken] at h
+    cases src with
+    | nil => exact absurd rfl h
+    | cons _ _ => rfl
+  | some e =>
+    obtain ⟨key, info⟩ := e
+    simp only [ValidToken] at h
+    simp only
+    by_cases hl : info.len = src.length
+    · rw [if_neg (by simpa using hl)]
+      cases hf : v.backrefs.find? (fun x => decide (x.1 = key)) with
+      | none => simp only [hf]
+      | some found =>
+        simp only [hf]
+        have hm := List.mem_of_find?_eq_some hf
+        have hne : found ≠ (key, info) := fun e => h ⟨by rw [← e]; exact hm, hl⟩
+        rw [if_pos hne]
+    · rw [if_pos (by simpa using hl)]
+
+theorem slices_split (l : List Slice) (j : Nat) (t : Slice) (h : l[j]? = some t) :
+    l = l.take j ++ t :: l.drop (j + 1) := by
+  have hj : j < l.length := by
+    rcases Nat.lt_or_ge j l.length with h1 | h1
+    · exact h1
+    · rw [List.getElem?_eq_none h1] at h; cases h
+  have ht : l[j] = t := by rw [List.getElem?_eq_getElem hj] at h; exact Option.some.inj h
+  conv => lhs; rw [← List.take_append_drop j l]
+  rw [List.drop_eq_getElem_cons hj, ht]
+
+theorem World.backfill_spec (w : World) (i : Nat) (v : Iov) (e : Nat × BackrefInfo) (src : List UInt8)
+    (hv : w.iov i = some v) (hinv : IovInv w v) (he : e ∈ v.backrefs) (hlen : e.2.len = src.length) :
+    ∃ w' v', w.backfill i (some e) src = some w' ∧ w'.iov i = some v' ∧ IovInv w' v' ∧
+      absCells w' v' = fillCells e.1 (absCells w v) src ∧
+      v'.backrefs = v.backrefs.filter (fun x => decide (x.1 ≠ e.1)) ∧ v'.slices = v.slices ∧
+      v'.consumedSize = v.consumedSize ∧ v'.logicalSize = v.logicalSize ∧ w'.exts = w.exts := by
+  obtain ⟨key, info⟩ := e
+  have hb := hinv.br_ok _ he
+  obtain ⟨target, k, hget, hreg, hle⟩ := hb.slice
+  simp only at hget hle hlen
+  have hpos : ∀ x ∈ v.backrefs, 0 < x.2.len := fun x hx => (hinv.br_ok x hx).len_pos
+  have hfind := find?_key hinv.br_sorted hpos he
+  simp only at hfind
+  let v' : Iov := { v with backrefs := v.backrefs.filter (fun x => decide (x.1 ≠ key)) }
+  let wf : World := { (w.setIov i (some v')) with heap := w.heap.write k (target.off + info.begin) src }
+  have hres : w.backfill i (some (key, info)) src = some wf := by
+    unfold World.backfill
+    rw [hv]
+    simp only
+    rw [if_neg (by simpa using hlen)]
+    simp only [hfind]
+    rw [if_neg (by simp)]
+    rw [if_neg (by have := hb.idx_ge; simp only at this; omega)]
+    simp only [hget]
+    rw [if_neg (by omega)]
+    simp only [hreg]
+    rfl
+  have hinv' : IovInv wf v' :=
+    { slices_ok := fun s hs => (hinv.slices_ok s hs).of_world (fun _ => Nat.le_refl _) (Nat.le_refl _)
+      ordered := hinv.ordered, size_eq := hinv.size_eq, anchors_pos := hinv.anchors_pos
+      anchors_sum := hinv.anchors_sum, cache_fresh := hinv.cache_fresh
+      br_ok := fun x hx => (hinv.br_ok x (List.mem_filter.mp hx).1).congr rfl rfl rfl
+      br_sorted := hinv.br_sorted.filter _ }
+  refine ⟨wf, v', hres, ?_, hinv', ?_, rfl, rfl, rfl, rfl, rfl⟩
+  · exact World.iov_setIov w i (some v')
+  · -- contents
+    have hsplit := slices_split v.slices _ target hget
+    generalize hj : info.sliceIndex - v.consumedSlices = j at hget hsplit
+    have hord := hinv.ordered
+    unfold SlicesOrdered at hord
+    rw [hsplit, List.pairwise_append, List.pairwise_cons] at hord
+    obtain ⟨_, ⟨hpost, _⟩, hpre⟩ := hord
+    have hokT := hinv.slices_ok target (by rw [hsplit]; simp)
+    -- bytes of the slices in the new world
+    have hpreB : wf.flat (v.slices.take j) = w.flat (v.slices.take j) := by
+      apply flat_congr
+      intro x hx
+      apply sliceBytes_write_disjoint w wf k (target.off + info.begin) src x rfl rfl
+      intro c hc
+      by_cases hck : c = k
+      · right; left
+        have := hpre x hx target (by simp) c hc (by rw [hreg, hck])
+        omega
+      · left; exact hck
+    have hpostB : wf.flat (v.slices.drop (j + 1)) = w.flat (v.slices.drop (j + 1)) := by
+      apply flat_congr
+      intro x hx
+      apply sliceBytes_write_disjoint w wf k (target.off + info.begin) src x rfl rfl
+      intro c hc
+      by_cases hck : c = k
+      · right; right
+        have := hpost x hx k hreg (by rw [hc, hck])
+        omega
+      · left; exact hck
+    have hT : wf.sliceBytes target =
+        (w.sliceBytes target).take info.begin ++ src ++ (w.sliceBytes target).drop (info.begin + src.length) := by
+      simp only [World.sliceBytes, hreg, wf]
+      exact Heap.read_write_inside _ _ _ _ _ _ (by omega)
+    have hTlen : (w.sliceBytes target).length = target.len := sliceBytes_length w v.arena target hokT
+    -- the three pieces
+    have hkey := hb.key_eq
+    unfold sliceStart at hkey
+    simp only [hj] at hkey
+    have hpl : (w.flat (v.slices.take j)).length = sumLens (v.slices.take j) := hinv.flat_take_length j
+    have hflat : w.flat v.slices =
+        (w.flat (v.slices.take j) ++ (w.sliceBytes target).take info.begin) ++
+          ((w.sliceBytes target).drop info.begin).take info.len ++
+          (((w.sliceBytes target).drop (info.begin + info.len)) ++ w.flat (v.slices.drop (j + 1))) := by
+      conv => lhs; rw [hsplit]
+      simp only [World.flat_append, World.flat_cons, List.append_assoc]
+      congr 1
+      rw [← List.append_assoc, ← List.append_assoc]
+      congr 1
+      rw [List.append_assoc, ← List.drop_drop, List.take_append_drop, List.take_append_drop]
+    have hflat' : wf.flat v.slices =
+        (w.flat (v.slices.take j) ++ (w.sliceBytes target).take info.begin) ++ src ++
+          (((w.sliceBytes target).drop (info.begin + info.len)) ++ w.flat (v.slices.drop (j + 1))) := by
+      conv => lhs; rw [hsplit]
+      simp only [World.flat_append, World.flat_cons, hpreB, hpostB, hT, hlen, List.append_assoc]
+    unfold absCells
+    show mkCells (v.backrefs.filter (fun x => decide (x.1 ≠ key))) v.consumedSize (wf.flat v.slices) = _
+    rw [hflat, hflat']
+    exact mkCells_fill v.backrefs v.consumedSize _ _ _ src (key, info) he hinv.br_sorted hpos
+      (by simp only [List.length_append, List.length_take, hpl, hTlen]; omega)
+      (by simp only [List.length_take, List.length_drop, hTlen]; omega)
+      hlen.symm
+
+/-! ### `impl Read for ConsumingIovec` -/
+
+/-- Two worlds that differ at most in their object tables. -/
+structure SameMem (w w' : World) : Prop where
+  heap : w'.heap = w.heap
+  exts : w'.exts = w.exts
+  next : w'.next = w.next
+  pol : w'.pol = w.pol
+  tun : w'.tun = w.tun
+
+theorem SameMem.refl (w : World) : SameMem w w := ⟨rfl, rfl, rfl, rfl, rfl⟩
+theorem SameMem.trans {w w' w'' : World} (h1 : SameMem w w') (h2 : SameMem w' w'') : SameMem w w'' :=
+  ⟨h2.heap.trans h1.heap, h2.exts.trans h1.exts, h2.next.trans h1.next, h2.pol.trans h1.pol, h2.tun.trans h1.tun⟩
+theorem SameMem.setIov (w : World) (i : Nat) (o : Option Iov) : SameMem w (w.setIov i o) := ⟨rfl, rfl, rfl, rfl, rfl⟩
+
+theorem SameMem.flat {w w' : World} (h : SameMem w w') (l : List Slice) : w'.flat l = w.flat l :=
+  flat_congr l (fun s _ => sliceBytes_congr s h.heap h.exts)
+
+theorem SameMem.inv {w w' : World} (h : SameMem w w') {v : Iov} (hi : IovInv w v) : IovInv w' v :=
+  hi.of_world (fun _ => by rw [h.exts]; exact Nat.le_refl _) (by rw [h.next]; exact Nat.le_refl _)
+
+theorem SameMem.symm {w w' : World} (h : SameMem w w') : SameMem w' w :=
+  ⟨h.heap.symm, h.exts.symm, h.next.symm, h.pol.symm, h.tun.symm⟩
+
+theorem Consumed.of_sameMem {w w' : World} (h : SameMem w w') {v v' : Iov} {m : Nat} (hc : Consumed w v v' m) :
+    Consumed w' v v' m :=
+  { inv := h.inv hc.inv, backrefs := hc.backrefs, logicalSize := hc.logicalSize, arena := hc.arena,
+    consumedSize := hc.consumedSize, slices_ge := hc.slices_ge, slices_end := hc.slices_end
+    flat_take := by intro n hn; rw [h.flat, h.flat]; exact hc.flat_take n hn }
+
+theorem Consumed.stableN {w : World} {v v' : Iov} {m : Nat} (hc : Consumed w v v' m) (hinv : IovInv w v) :
+    v'.consumedSlices + v'.stableN = v.consumedSlices + v.stableN := by
+  have h1 := hc.slices_ge
+  have h2 := hc.slices_end
+  unfold Iov.stableN
+  rw [hc.backrefs]
+  cases hb : v.backrefs with
+  | nil => simp only [List.head?_nil]; omega
+  | cons e t =>
+    obtain ⟨k, info⟩ := e
+    simp only [List.head?_cons]
+    have g1 := (hinv.br_ok (k, info) (by rw [hb]; simp)).idx_ge
+    have g2 := (hc.inv.br_ok (k, info) (by rw [hc.backrefs, hb]; simp)).idx_ge
+    simp only at g1 g2
+    omega
+
+theorem Consumed.visible {w : World} {v v' : Iov} {m : Nat} (hc : Consumed w v v' m) (hinv : IovInv w v) :
+    w.visible v' = (w.visible v).drop m := by
+  unfold World.visible
+  have h := hc.stableN hinv
+  have := hc.flat_take v.stableN (by omega)
+  rw [← this]
+  congr 2
+  omega
+
+theorem visible_prefix_flat (w : World) (v : Iov) : w.visible v <+: w.flat v.slices := by
+  unfold World.visible
+  conv => rhs; rw [← List.take_append_drop v.stableN v.slices]
+  rw [World.flat_append]
+  exact List.prefix_append _ _
+
+theorem IovInv.visible_length {w : World} {v : Iov} (h : IovInv w v) :
+    (w.visible v).length = sumLens (v.slices.take v.stableN) := h.flat_take_length _
+
+theorem World.readInto_spec (i : Nat) (fuel : Nat) : ∀ (w : World) (v : Iov) (room : Nat) (acc : List UInt8),
+    w.iov i = some v → IovInv w v → room < fuel →
+    ∃ w' v', World.readInto fuel w i room acc = some (w', acc ++ (w.visible v).take room) ∧
+      w'.iov i = some v' ∧ SameMem w w' ∧ Consumed w v v' (min room (w.visible v).length) := by
+  induction fuel with
+  | zero => intro _ _ _ _ _ _ h; omega
+  | succ fuel ih =>
+    intro w v room acc hv hinv hfuel
+    rw [World.readInto]
+    by_cases hr : room = 0
+    · subst hr
+      rw [if_pos rfl]
+      exact ⟨w, v, by simp, hv, SameMem.refl w, by simpa using Consumed.refl hinv⟩
+    · rw [if_neg hr]
+      simp only [hv, hinv.stableCount]
+      cases hh : (v.slices.take v.stableN).head? with
+      | none =>
+        have hnil : v.slices.take v.stableN = [] := by
+          cases ht : v.slices.take v.stableN with
+          | nil => rfl
+          | cons a t => rw [ht] at hh; cases hh
+        have hvis : w.visible v = [] := by unfold World.visible; rw [hnil]; rfl
+        simp only
+        exact ⟨w, v, by simp [hvis], hv, SameMem.refl w, by simpa [hvis] using Consumed.refl hinv⟩
+      | some s =>
+        simp only
+        obtain ⟨t, ht⟩ : ∃ t, v.slices.take v.stableN = s :: t := by
+          cases ht : v.slices.take v.stableN with
+          | nil => rw [ht] at hh; cases hh
+          | cons a t => rw [ht] at hh; simp at hh; exact ⟨t, by rw [hh]⟩
+        have hsok : SliceOk w v.arena s :=
+          hinv.slices_ok s (List.mem_of_mem_take (by rw [ht]; simp))
+        have hslen := sliceBytes_length w v.arena s hsok
+        have hvis : w.visible v = w.sliceBytes s ++ w.flat t := by
+          unfold World.visible; rw [ht]; simp
+        have hsl : sumLens (v.slices.take v.stableN) = s.len + sumLens t := by rw [ht]; simp
+        obtain ⟨v1, h1, h2⟩ := World.advance_spec w i v (min s.len room) hv hinv
+        have hk : min (min s.len room) (sumLens (v.slices.take v.stableN)) = min s.len room := by
+          rw [hsl]; omega
+        rw [hk] at h1 h2
+        rw [h1]
+        simp only
+        have hpos := hsok.pos
+        obtain ⟨w2, v2, g1, g2, g3, g4⟩ := ih (w.setIov i (some v1)) v1 (room - min s.len room)
+          (acc ++ (w.sliceBytes s).take (min s.len room)) (by simp) (h2.inv.setIov _ _) (by omega)
+        have hvis1 : (w.setIov i (some v1)).visible v1 = (w.visible v).drop (min s.len room) := by
+          rw [visible_setIov]; exact h2.visible hinv
+        rw [hvis1] at g1 g4
+        refine ⟨w2, v2, ?_, g2, (SameMem.setIov w i _).trans g3, ?_⟩
+        · rw [g1]
+          congr 1
+          rw [List.append_assoc]
+          congr 1
+          have e1 : (w.sliceBytes s).take (min s.len room) = (w.visible v).take (min s.len room) := by
+            rw [hvis, List.take_append_of_le_length (by omega)]
+          rw [e1]
+          have e2 : room = min s.len room + (room - min s.len room) := by omega
+          conv => rhs; rw [e2, List.take_add]
+        · have hc2 : Consumed w v1 v2 _ := g4.of_sameMem (SameMem.setIov w i (some v1)).symm
+          have := h2.trans hc2
+          have hl : (w.visible v).length = s.len + sumLens t := by rw [hinv.visible_length, hsl]
+          have e : min s.len room + min (room - min s.len room) ((w.visible v).drop (min s.len room)).length
+              = min room (w.visible v).length := by
+            rw [List.length_drop, hl]; omega
+          rw [e] at this
+          exact this
+
 end Woodpile.Iovec
